@@ -76,7 +76,6 @@ func blockSlots(b block) int {
 type remover struct {
 	target, counter int
 	cutFrom, cutTo  int
-	keepFrom        int // for "replace by the inner part" edits: unused
 }
 
 func (rm *remover) hit(from, n int) bool {
